@@ -17,11 +17,24 @@ def hook_commits():
     return [l.split(" ", 1)[0] for l in out.splitlines() if l.split(" ", 1)[1].startswith("verif hooks")]
 
 
+def ready(pid):
+    """A property is claimed only when its check has produced a clean evidence file."""
+    if pid not in P.PROPS or P.PROPS[pid].get("unclaimed"):
+        return False
+    path = os.path.join(VERIF, "evidence", pid + ".json")
+    try:
+        ev = json.load(open(path))
+    except Exception:
+        return False
+    cov = ev.get("coverage", {})
+    return ev.get("violations", 1) == 0 and cov.get("obligations", 0) >= 1 and cov.get("discharged") == cov.get("obligations")
+
+
 def main():
     baseline = json.load(open("/root/.vp/BASELINE.json"))["cmd"]
     checks = []
     for pid in ALL:
-        if pid not in P.PROPS or P.PROPS[pid].get("unclaimed"):
+        if not ready(pid):
             continue
         c = P.PROPS[pid]
         checks.append({
@@ -41,7 +54,7 @@ def main():
         })
     na = []
     for pid in ALL:
-        if pid not in P.PROPS or P.PROPS[pid].get("unclaimed"):
+        if not ready(pid):
             na.append({"property_id": pid, "reason": P.NOT_CLAIMED.get(pid, "check not built yet (work in progress; the design for it is in DESIGN.md section 6)")})
     m = {
         "version": 1,
